@@ -9,8 +9,8 @@ correspondence protocol (`harness/src/bin/c16.rs` through hook `verif_hooks_c16:
 `Driver/C16.lean`), exact script equality.
 
 All statements are for arbitrary element types with decidable equality and for lists of any
-length; no bound on sizes, fuel or steps appears in a hypothesis except where fuel is the explicit
-subject (`longestTrace_total` removes it).
+length; no bound on sizes or steps; fuel appears only where it is the explicit subject and
+`longestTrace_total` / `diff_total_correct` remove it.
 -/
 namespace SamVerif.Differ
 variable {α : Type} [DecidableEq α]
